@@ -4,6 +4,7 @@
 #include <asl/Map.h>
 #include <asl/HashMap.h>
 #include <asl/Pointer.h>
+#include <asl/Mutex.h>
 #include "vp.h"
 using namespace asl;
 
@@ -118,3 +119,45 @@ extern "C" void h_conc_array(void) { Conc<Array<Counted> >::run(); }
 extern "C" void h_conc_map(void) { Conc<Map<int, Counted> >::run(); }
 extern "C" void h_conc_hashmap(void) { Conc<HashMap<int, Counted> >::run(); }
 extern "C" void h_conc_shared(void) { Conc<Shared<Counted> >::run(); }
+
+// Atomic<T> read-modify-write operators under interleavings (all of them, incl. *= and /= which the counter scenarios of the
+// cbmc part do not use): p1 = program of the second thread (0: ++ and += ; 1: -- and -= ; 2: ++ (post) and *= 1)
+static Atomic<int>* g_atom; static int g_aprog;
+static void* atom_a(void*)
+{
+	if (!vp_symbolic_run()) { __sync_fetch_and_add(&g_arrived, 1); while (!g_go) {} }
+	for (int k = 0; k < (vp_symbolic_run() ? 1 : 200); k++) { *g_atom *= 1; *g_atom /= 1; }
+	return 0;
+}
+static void* atom_b(void*)
+{
+	if (!vp_symbolic_run()) { __sync_fetch_and_add(&g_arrived, 1); while (!g_go) {} }
+	for (int k = 0; k < (vp_symbolic_run() ? 1 : 200); k++)
+	{
+		if (g_aprog == 0) { ++*g_atom; *g_atom += 3; }
+		else if (g_aprog == 1) { --*g_atom; *g_atom -= 2; }
+		else { (*g_atom)++; *g_atom *= 1; }
+	}
+	return 0;
+}
+extern "C" void h_conc_atomic(void)
+{
+	vp_sched_budget(vp_param(0));
+	g_aprog = vp_param(1);
+	int delta = g_aprog == 0 ? 4 : g_aprog == 1 ? -3 : 1;
+	int reps = vp_symbolic_run() ? 1 : 200;
+	struct timespec t0; clock_gettime(CLOCK_MONOTONIC, &t0);
+	for (int r = 0; r < (vp_symbolic_run() ? 1 : 1000000); r++)
+	{
+		if (r && (r & 15) == 0) { struct timespec t; clock_gettime(CLOCK_MONOTONIC, &t); if (t.tv_sec - t0.tv_sec >= 3) break; }
+		g_atom = new Atomic<int>(7);
+		g_arrived = 0; g_go = 0;
+		pthread_t a, b;
+		pthread_create(&a, 0, atom_a, 0); pthread_create(&b, 0, atom_b, 0);
+		if (!vp_symbolic_run()) { while (g_arrived < 2) {} g_go = 1; }
+		pthread_join(a, 0); pthread_join(b, 0);
+		vp_assert((int)*g_atom == 7 + reps * delta, "no Atomic<T> update is lost: the final value is the initial value plus the sum of all operations");
+		delete g_atom;
+	}
+	vp_reach(3);
+}
